@@ -1,2 +1,408 @@
-// Package c15: check for property C15 (see /verif/DESIGN.md §3 C15).
+// Package c15: string, regex, formatting and hash functions match independent
+// references (see /verif/DESIGN.md §3 C15).
+//
+// Engine E2: bounded exhaustive enumeration of argument tuples, real BIFs called
+// directly (pkg/bifs), DSL names / operators / verbs / main flags bound through
+// in-process mlr runs. The reference lives in another language
+// (harness/pyref/strref.py: Python str, re, hashlib, base64, binascii, json and
+// a C99-rule integer formatter validated against glibc printf), one batch
+// subprocess per worker shard. Model-free laws (inverse pairs, verb == function
+// per field) are evaluated on the real code on both sides.
 package c15
+
+import (
+	"bytes"
+	"encoding/hex"
+	"encoding/json"
+	"fmt"
+	"os"
+	"os/exec"
+	"path/filepath"
+	"sort"
+	"strconv"
+	"strings"
+
+	"github.com/johnkerl/miller/v6/pkg/mlrval"
+	"github.com/johnkerl/miller/v6/pkg/verifrt"
+
+	"verif/harness/vf"
+)
+
+func init() {
+	vf.Register(&vf.CheckDef{ID: "C15", Level: "model_checking", Run: run,
+		Workers: map[string]vf.WorkerFunc{
+			"str":   strWorker,
+			"regex": regexWorker,
+			"fmt":   fmtWorker,
+			"inv":   invWorker,
+			"dsl":   dslWorker,
+			"verbs": verbsWorker,
+			"spin":  spinWorker,
+		}})
+}
+
+// ---------------------------------------------------------------- python reference plumbing
+
+func pyScript() string { return filepath.Join(vf.Root, "harness", "pyref", "strref.py") }
+
+// pyBatch runs the reference once over the requests (one JSON object per line)
+// and returns one raw JSON answer per request.
+func pyBatch(reqs []any) ([]json.RawMessage, error) {
+	if len(reqs) == 0 {
+		return nil, nil
+	}
+	dir := "/dev/shm"
+	if _, err := os.Stat(dir); err != nil {
+		dir = os.TempDir()
+	}
+	in, err := os.CreateTemp(dir, "verif-c15-req-")
+	if err != nil {
+		return nil, err
+	}
+	defer os.Remove(in.Name())
+	var buf bytes.Buffer
+	enc := json.NewEncoder(&buf)
+	enc.SetEscapeHTML(false)
+	for _, r := range reqs {
+		if err := enc.Encode(r); err != nil {
+			return nil, err
+		}
+	}
+	if _, err := in.Write(buf.Bytes()); err != nil {
+		return nil, err
+	}
+	in.Seek(0, 0)
+	cmd := exec.Command("python3", pyScript())
+	cmd.Stdin = in
+	cmd.Env = append(os.Environ(), "PYTHONHASHSEED=0", "PYTHONIOENCODING=utf-8")
+	var eb strings.Builder
+	cmd.Stderr = &eb
+	out, err := cmd.Output()
+	in.Close()
+	if err != nil {
+		return nil, fmt.Errorf("python3 strref.py: %v: %s", err, eb.String())
+	}
+	lines := bytes.Split(bytes.TrimRight(out, "\n"), []byte("\n"))
+	if len(lines) != len(reqs) {
+		return nil, fmt.Errorf("python3 strref.py: %d answers for %d requests: %s", len(lines), len(reqs), eb.String())
+	}
+	res := make([]json.RawMessage, len(lines))
+	for i, l := range lines {
+		res[i] = json.RawMessage(l)
+	}
+	return res, nil
+}
+
+func mustUnmarshal(w *vf.Worker, raw json.RawMessage, into any) bool {
+	if err := json.Unmarshal(raw, into); err != nil {
+		w.Broken("cannot decode reference answer %s: %v", trunc(string(raw), 200), err)
+		return false
+	}
+	return true
+}
+
+func trunc(s string, n int) string {
+	if len(s) > n {
+		return s[:n] + "..."
+	}
+	return s
+}
+
+func hx(s string) string { return hex.EncodeToString([]byte(s)) }
+
+// q shows a byte string readably (Go quoting) for messages and keys.
+func q(s string) string { return strconv.QuoteToASCII(s) }
+
+// ---------------------------------------------------------------- rendering Miller values in the reference's notation
+
+func render(mv *mlrval.Mlrval) string {
+	if mv == nil {
+		return "nil"
+	}
+	switch mv.Type() {
+	case mlrval.MT_STRING, mlrval.MT_VOID:
+		return "s:" + hx(mv.String())
+	case mlrval.MT_INT:
+		v, _ := mv.GetIntValue()
+		return "i:" + strconv.FormatInt(v, 10)
+	case mlrval.MT_FLOAT:
+		return "f:" + mv.String()
+	case mlrval.MT_BOOL:
+		return "b:" + mv.String()
+	case mlrval.MT_ERROR:
+		return "e"
+	case mlrval.MT_ABSENT:
+		return "a"
+	case mlrval.MT_BYTES:
+		return "y:" + hex.EncodeToString(mv.AcquireBytesValue())
+	case mlrval.MT_ARRAY:
+		var parts []string
+		for _, e := range mv.AcquireArrayValue() {
+			parts = append(parts, render(e))
+		}
+		return "A[" + strings.Join(parts, ",") + "]"
+	case mlrval.MT_MAP:
+		var parts []string
+		for pe := mv.AcquireMapValue().Head; pe != nil; pe = pe.Next {
+			parts = append(parts, pe.Key+"="+render(pe.Value))
+		}
+		return "M{" + strings.Join(parts, ";") + "}"
+	}
+	return "type:" + mv.GetTypeName()
+}
+
+// show turns a rendering / want back into something a human can read.
+func show(r string) string {
+	alts := strings.Split(r, "|")
+	for i, a := range alts {
+		switch {
+		case strings.HasPrefix(a, "s:"):
+			if b, err := hex.DecodeString(a[2:]); err == nil {
+				alts[i] = "string " + q(string(b))
+			}
+		case strings.HasPrefix(a, "ws:"):
+			if b, err := hex.DecodeString(a[3:]); err == nil {
+				alts[i] = "whitespace-normalised " + q(string(b))
+			}
+		case strings.HasPrefix(a, "y:"):
+			alts[i] = "bytes " + a[2:]
+		case a == "e":
+			alts[i] = "(error)"
+		case a == "a":
+			alts[i] = "(absent)"
+		case strings.HasPrefix(a, "i:"):
+			alts[i] = "int " + a[2:]
+		case strings.HasPrefix(a, "A[") || strings.HasPrefix(a, "M{"):
+			alts[i] = showNested(a)
+		}
+	}
+	return strings.Join(alts, " or ")
+}
+
+func showNested(a string) string {
+	// decode every s:<hex> token inside an array/map rendering
+	var sb strings.Builder
+	for i := 0; i < len(a); {
+		if strings.HasPrefix(a[i:], "s:") {
+			j := i + 2
+			for j < len(a) && strings.IndexByte("0123456789abcdef", a[j]) >= 0 {
+				j++
+			}
+			b, _ := hex.DecodeString(a[i+2 : j])
+			sb.WriteString(q(string(b)))
+			i = j
+			continue
+		}
+		sb.WriteByte(a[i])
+		i++
+	}
+	return sb.String()
+}
+
+func isWS(c byte) bool { return c == ' ' || c == '\t' || c == '\n' || c == '\r' || c == '\f' || c == '\v' }
+
+// matchWant compares a rendering with a want from the reference. Second result:
+// the want was "unconstrained".
+func matchWant(got string, want string) (ok bool, unconstrained bool) {
+	if want == "u" {
+		return true, true
+	}
+	for _, a := range strings.Split(want, "|") {
+		if a == got {
+			return true, false
+		}
+		if strings.HasPrefix(a, "ws:") && strings.HasPrefix(got, "s:") {
+			gb, err := hex.DecodeString(got[2:])
+			if err != nil {
+				continue
+			}
+			okws := true
+			for i := range gb {
+				if isWS(gb[i]) {
+					if i > 0 && isWS(gb[i-1]) {
+						okws = false
+					}
+					gb[i] = ' '
+				}
+			}
+			if okws && hex.EncodeToString(gb) == a[3:] {
+				return true, false
+			}
+		}
+	}
+	return false, false
+}
+
+// ---------------------------------------------------------------- alphabets
+
+// The property's string alphabet: ASCII lower/upper, space, 2-byte, 3-byte, a
+// combining sequence (two code points), an invalid byte, tab.
+var strAlphabet = []string{"a", "B", " ", "\u00e9", "\u65e5", "e\u0301", "\xff", "\t"}
+var strAlphabetNames = []string{"a", "B", "space", "e-acute(2-byte)", "CJK(3-byte)", "e+combining-acute", "invalid-0xff", "tab"}
+
+// allStrings returns every concatenation of up to maxSyms alphabet symbols,
+// shortest first, together with the symbols used.
+func allStrings(alpha []string, maxSyms int) (out []string, syms [][]int) {
+	out = []string{""}
+	syms = [][]int{nil}
+	prevS, prevY := []string{""}, [][]int{nil}
+	for l := 1; l <= maxSyms; l++ {
+		var curS []string
+		var curY [][]int
+		for i, p := range prevS {
+			for k, a := range alpha {
+				curS = append(curS, p+a)
+				y := append(append([]int{}, prevY[i]...), k)
+				curY = append(curY, y)
+			}
+		}
+		out = append(out, curS...)
+		syms = append(syms, curY...)
+		prevS, prevY = curS, curY
+	}
+	return
+}
+
+// sval makes the Mlrval a field value or string literal with these bytes has.
+func sval(s string) *mlrval.Mlrval { return mlrval.FromString(s) }
+
+func trap() { verifrt.TrapExits(true) }
+
+// call runs a BIF under panic/exit protection.
+func call(f func() *mlrval.Mlrval) (res *mlrval.Mlrval, panicked string) {
+	p, _ := vf.Try(func() { res = f() })
+	if p != nil {
+		if e, ok := p.(verifrt.ExitPanic); ok {
+			return nil, fmt.Sprintf("os.Exit(%d)", e.Code)
+		}
+		return nil, fmt.Sprintf("PANIC %v", p)
+	}
+	if res == nil {
+		return nil, "nil result"
+	}
+	return res, ""
+}
+
+type checker struct {
+	w      *vf.Worker
+	family string
+}
+
+// cmp records one comparison. size prefixes the key so that the smallest
+// counterexample sorts first.
+func (c *checker) cmp(group string, size int, caseKey string, fn string, got *mlrval.Mlrval, panicked string, want string, replay map[string]any) {
+	w := c.w
+	w.Eval(1)
+	w.Count("calls:"+fn, 1)
+	if panicked != "" {
+		w.Violation(fmt.Sprintf("crash[%s]:%02d:%s", fn, size, caseKey), fmt.Sprintf("%s: %s (must return a value)", caseKey, panicked), replay)
+		return
+	}
+	g := render(got)
+	ok, un := matchWant(g, want)
+	if un {
+		w.Count("unconstrained:"+fn, 1)
+		return
+	}
+	w.Nontrivial(1)
+	w.Count("asserted:"+fn, 1)
+	if !ok {
+		if replay == nil {
+			replay = map[string]any{}
+		}
+		replay["got"] = show(g)
+		replay["expected"] = show(want)
+		w.Violation(fmt.Sprintf("%s:%02d:%s", group, size, caseKey), fmt.Sprintf("%s = %s; reference: %s", caseKey, show(g), show(want)), replay)
+	}
+}
+
+// ---------------------------------------------------------------- orchestrator
+
+func run(c *vf.Ctx) {
+	c.Rule = "every (function, argument tuple) of each family is evaluated on the real BIF (or through an in-process mlr run for operators, verbs and flags) and compared with the Python reference or with a law on the real code. " +
+		"Families: str = all strings of <=3 symbols over {a,B,space,e-acute,CJK,e+combining,0xff,tab} x indices -5..5 (pairs) x widths 0..5 x pads; regex = all regexes of <=N AST nodes over {a,b,.,[ab],^,$,*,+,?,|,()} x all subjects of length <=L over {a,b,c} x replacement strings, also case-insensitive on {a,A,b,c}; " +
+		"fmt = %[flags<=2 of -0+space#][width in none,1,5,8][precision in none,.0,.3][verb] x values; inv = inverse pairs / decoders / digests; dsl = capture-state sequences, string-literal escapes, DSL-name binding; verbs = wrapping verbs vs put. " +
+		"distinct_nontrivial = number of evaluations whose expectation was determined by the documentation (not 'unconstrained') and compared"
+	c.Assume("malformed UTF-8 (0xff): the character-aware functions are only required not to crash (docs say nothing); byte-exact functions (digests, base64, hex, ssub/gssub, latin1_to_utf8, format, '.') are asserted on every byte string")
+	c.Assume("substr/substr0/substr1 with out-of-bounds or reversed indices: the trimmed substring (as documented for slices) or an error are both accepted; s[m:n] must trim as reference-main-strings.md says; s[k] out of bounds must be an error")
+	c.Assume("collapse_whitespace/clean_whitespace: which whitespace character replaces a run is not documented: output compared after mapping whitespace to spaces, and no two adjacent whitespace characters may remain")
+	c.Assume("regex safe subset: one quantifier per atom, no quantified anchors, and patterns that put * or + on a group that can match the empty string are excluded (RE2 and backtracking engines document different captures there); gsub on patterns that can match the empty string: both conventions for an empty match next to a previous match (Go's and Python>=3.7's) are accepted")
+	c.Assume("strmatchx when a capture group took no part in the match, regextract on an empty first argument, index/contains/ssub/gssub with an empty needle, splitax of the empty string: not documented, counted as unconstrained")
+	c.Assume("printf: asserted = what C99 defines AND Go's fmt documents identically: d with flags -0+space; x X o b on non-negative ints with flags -0 (# only on non-zero x X o); e E f g G with all flags on finite values (ints are converted to double), g/G without precision only on values with <=6 significant digits (C uses 6 digits, Go the shortest unique representation); s with flag - on ints and strings. " +
+		"Not asserted: floats through integer verbs, negative ints through x/X/o/b, + and space on unsigned verbs, # on d/zero/b, 0 on s, inf/nan, booleans (only: not an error), empty input, text around the verb for numeric verbs, %lle-style modifiers")
+	c.Assume("verb == function per field is asserted on string-valued and empty fields only where the verb's usage text promises the DSL function's behaviour; numeric-looking field values are left alone by sub/gsub/ssub by design")
+	c.Assume("the sub/gsub third-argument literal is interpolated with the captures of an earlier =~ (documented under 'Resetting captures'): not asserted either way")
+
+	if _, err := exec.LookPath("python3"); err != nil {
+		c.Broken("python3 not found: %v", err)
+		return
+	}
+
+	sets := map[string]map[string]bool{}
+	merge := func(r *vf.PoolResult) {
+		for k, m := range r.Sets {
+			if sets[k] == nil {
+				sets[k] = map[string]bool{}
+			}
+			for s := range m {
+				sets[k][s] = true
+			}
+		}
+	}
+	merge(c.RunPool(vf.PoolSpec{Worker: "str", Shards: 48}))
+	merge(c.RunPool(vf.PoolSpec{Worker: "regex", Shards: 64}))
+	merge(c.RunPool(vf.PoolSpec{Worker: "fmt", Shards: 32}))
+	merge(c.RunPool(vf.PoolSpec{Worker: "inv", Shards: 16}))
+	merge(c.RunPool(vf.PoolSpec{Worker: "dsl", Shards: 16}))
+	merge(c.RunPool(vf.PoolSpec{Worker: "verbs", Shards: 16}))
+	merge(c.RunPool(vf.PoolSpec{Worker: "spin", Shards: 4, StallSecs: 600}))
+
+	// evidence: per-function / per-symbol hit counts out of the merged counters
+	calls, asserted, uncon := map[string]int64{}, map[string]int64{}, map[string]int64{}
+	symbols := map[string]int64{}
+	other := map[string]int64{}
+	for k, v := range c.Counters {
+		switch {
+		case strings.HasPrefix(k, "calls:"):
+			calls[k[6:]] = v
+		case strings.HasPrefix(k, "asserted:"):
+			asserted[k[9:]] = v
+		case strings.HasPrefix(k, "unconstrained:"):
+			uncon[k[14:]] = v
+		case strings.HasPrefix(k, "symbol:"):
+			symbols[k[7:]] = v
+		default:
+			other[k] = v
+		}
+	}
+	c.Extra["calls_per_function"] = calls
+	c.Extra["asserted_per_function"] = asserted
+	c.Extra["unconstrained_per_function"] = uncon
+	c.Extra["alphabet_symbol_hits"] = symbols
+	c.Counters = other
+	var never []string
+	for f, n := range calls {
+		if asserted[f] == 0 && n > 0 {
+			never = append(never, f)
+		}
+	}
+	sort.Strings(never)
+	c.Extra["functions_called_but_never_asserted"] = never
+	for name, m := range sets {
+		if len(m) <= 64 {
+			var l []string
+			for s := range m {
+				l = append(l, s)
+			}
+			sort.Strings(l)
+			c.Extra["set:"+name] = l
+		} else {
+			c.Extra["set_size:"+name] = len(m)
+		}
+	}
+	for i, n := range strAlphabetNames {
+		if symbols["str:"+n] == 0 {
+			c.Broken("alphabet symbol %q (%d) was never exercised", n, i)
+		}
+	}
+}
